@@ -217,6 +217,7 @@ class RT:
     contains = staticmethod(S.sx_contains)
     eq = staticmethod(S.sx_eq)
     join = staticmethod(S.sx_join)
+    format = staticmethod(S.sx_format)
     re_call = staticmethod(S.sx_re_call)
     get = staticmethod(S.sx_get)
     getitem = staticmethod(S.sx_getitem)
@@ -259,6 +260,10 @@ class Rewriter(ast.NodeTransformer):
     def visit_Call(self, node):
         self.generic_visit(node)
         f = node.func
+        if isinstance(f, ast.Attribute) and f.attr == "format" and isinstance(f.value, (ast.Constant, ast.Name, ast.Attribute)) and all(k.arg is not None for k in node.keywords):
+            # fmt.format(...) incl. *args: route through the symbolic-aware formatter
+            args = ast.List([a for a in node.args], ast.Load())
+            return self._call(node, "format", [f.value, args, ast.Dict([ast.Constant(k.arg) for k in node.keywords], [k.value for k in node.keywords])])
         if isinstance(f, ast.Attribute) and not any(isinstance(a, ast.Starred) for a in node.args):
             kw_ok = all(k.arg is not None for k in node.keywords)
             if f.attr == "join" and len(node.args) == 1 and not node.keywords:
